@@ -829,18 +829,19 @@ int htp_parse_uri(bstr *input, htp_uri_t **uri) {
                     (*uri)->hostname = bstr_dup_mem(hostname_start, hostname_len);
                     if ((*uri)->hostname == NULL) return HTP_ERROR;
                 } else {
-                    (*uri)->hostname = bstr_dup_mem(hostname_start, m - hostname_start + 1);
+                    // Is there a port? Anything between the closing bracket and the port
+                    // separator stays with the hostname (which then fails validation)
+                    // so that no byte of the authority is silently dropped.
+                    unsigned char *colon = memchr(m + 1, ':', hostname_len - (m - hostname_start + 1));
+                    size_t host_len = (colon != NULL) ? (size_t) (colon - hostname_start) : hostname_len;
+
+                    (*uri)->hostname = bstr_dup_mem(hostname_start, host_len);
                     if ((*uri)->hostname == NULL) return HTP_ERROR;
 
-                    // Is there a port?
-                    hostname_len = hostname_len - (m - hostname_start + 1);
-                    hostname_start = m + 1;
-
                     // Port string
-                    m = memchr(hostname_start, ':', hostname_len);
-                    if (m != NULL) {
-                        size_t port_len = hostname_len - (m - hostname_start) - 1;
-                        (*uri)->port = bstr_dup_mem(m + 1, port_len);
+                    if (colon != NULL) {
+                        size_t port_len = hostname_len - host_len - 1;
+                        (*uri)->port = bstr_dup_mem(colon + 1, port_len);
                         if ((*uri)->port == NULL) return HTP_ERROR;
                     }
                 }
